@@ -74,6 +74,10 @@ Shape(i, s, o1, o2) ==
     [] i = 44 -> [rw |-> Un(<<This>>), restr |-> <<Ty("user")>>]
     [] i = 45 -> [rw |-> In(<<CU(o1)>>), restr |-> <<>>]
     [] i = 46 -> [rw |-> Un(<<In(<<This>>), Un(<<CU(o1)>>), In(<<TTU("a", "p")>>)>>), restr |-> <<Ty("user"), Wi("user")>>]
+    \* a direct userset edge and a rewrite edge from one operator to one relation (the edge kinds tell them apart, whichever comes first:
+    \* the operand permutations of C06 put the computed userset in front of the direct assignment)
+    [] i = 47 -> [rw |-> Un(<<This, CU(o1)>>), restr |-> <<Ty("user"), Us("doc", o1)>>]
+    [] i = 48 -> [rw |-> In(<<This, CU(o1)>>), restr |-> <<Us("doc", o1), Ty("user")>>]
     [] i = 23 -> [rw |-> Un(<<TTU("a", "q"), This>>), restr |-> <<TyC("user", "c"), Ty("user"), Wi("user")>>]
 
 FreeNames == IF NFree = 2 THEN <<"x", "y">> ELSE <<"x", "y", "z">>
